@@ -281,7 +281,9 @@ fn default_matrix(p: &PatternMatrix) -> PatternMatrix {
   let mut convert_to_default_matrix_queue =
     p.0.iter().map(|PatternVector(r)| r.clone()).collect::<VecDeque<_>>();
   while let Some(p_row) = convert_to_default_matrix_queue.pop_front() {
-    match p_row.first().unwrap().0.as_ref() {
+    // Rows of a matrix built from a module with syntax errors can be shorter than the others.
+    let Some(first) = p_row.first() else { continue };
+    match first.0.as_ref() {
       AbstractPatternNodeInner::StructLike { .. } => { /* skip */ }
       AbstractPatternNodeInner::Wildcard => {
         default_matrix_rows.push(PatternVector(p_row.rest()));
